@@ -5,7 +5,7 @@ set -u
 ID="$1"; CHECK="$2"; TIER="${3:-quick}"; BUDGET="${4:-60}"
 cd /repo || exit 2
 git diff --quiet || { echo "repo dirty"; exit 2; }
-git apply "/verif/seeded/$ID/patch.diff" || exit 2
+git apply "/verif/seeded/$ID/patch.diff" 2>/dev/null || git apply --3way "/verif/seeded/$ID/patch.diff" || exit 2
 cd /verif && ./check "$CHECK" --tier "$TIER" --budget-s "$BUDGET" 2>&1 | grep -E "VIOLATION|rule=|KNOWN|runs=|HARNESS|C19" | cut -c1-400 | head -8
 echo "exit=${PIPESTATUS[0]}"
-cd /repo && git checkout -- .
+cd /repo && git reset -q --hard HEAD
